@@ -49,7 +49,8 @@ TABLE = {
     'C08': [('OpyVerif.Proofs.C08ops', 'Opy.PNode', None), ('OpyVerif.Proofs.C08grow', 'Opy.PNode', None),
             ('OpyVerif.Generated.Constants', 'Opy.Gen', r'nArgs_'),
             ('OpyVerif.Proofs.HeapCode', 'Opy', None), ('OpyVerif.Generated.HeapOps', 'Opy.Gen', None),
-            ('OpyVerif.Proofs.GrowProg', 'Opy', None), ('OpyVerif.Proofs.GrowCode', 'Opy', None), ('OpyVerif.Generated.Grow', 'Opy.Gen', None)],
+            ('OpyVerif.Proofs.GrowProg', 'Opy', None), ('OpyVerif.Proofs.GrowCode', 'Opy', None), ('OpyVerif.Generated.Grow', 'Opy.Gen', None),
+            ('OpyVerif.Proofs.Forest', 'Opy', None)],
     'C09': [('OpyVerif.Proofs.C09', 'Opy.PNode', None), ('OpyVerif.Proofs.C09repro', 'Opy.PNode', None),
             ('OpyVerif.Proofs.ReproProg', 'Opy', None), ('OpyVerif.Proofs.ReproCode', 'Opy', None), ('OpyVerif.Generated.Repro', 'Opy.Gen', None),
             ('OpyVerif.Proofs.SelectProg', 'Opy', r'tournProg'), ('OpyVerif.Generated.Select', 'Opy.Gen', r'tournProg_eq'),
